@@ -1,10 +1,12 @@
 #!/bin/bash
 cd /verif
 run() { echo "=== $1 $(date +%T)"; ./tools/seed_recheck.sh "$@" 2>&1 | tail -8; }
+run R03-a C03; run R03-b C03; run R05-a C05; run R05-b C05; run R08-a C08 C15; run R08-b C08; run R09-a C09; run R09-b C09; run R15-a C15 C08; run R15-b C15
+run C14-a C14; run C14-b C14 C04 C03; run C18-a C18; run C18-b C18; run C19-a C19; run C19-b C19
 run C01-a C01 C11; run C01-b C01 C06 C04; run C02-a C02; run C02-b C02; run C03-a C03; run C03-b C03 C04
 run C04-a C04 C03; run C04-b C04; run C05-a C05; run C05-b C05; run C06-a C06; run C06-b C06
-run C07-a C07 C16; run C07-b C07 C08; run C08-a C08; run C08-b C08; run C09-a C09; run C09-b C09
+run C07-a C07 C16; run C07-b C07; run C08-a C08; run C08-b C08; run C09-a C09; run C09-b C09
 run C10-a C10; run C10-b C10 C07; run C11-a C11; run C11-b C11 C01; run C12-a C12; run C12-b C12
-run C13-a C13; run C13-b C13; run C15-a C15 C08; run C15-b C15; run C16-a C16 C07; run C16-b C16 C06
+run C13-a C13; run C13-b C13; run C15-a C15 C08; run C15-b C15; run C16-a C16 C07; run C16-b C16
 run C17-a C17; run C17-b C17 C18
 echo RECHECKDONE
